@@ -342,6 +342,8 @@ def render_module(T, postponed: bool, builtin_generics: bool) -> str:
         base = c.get("base", "plain")
         out.append("@dataclass(frozen=True, kw_only=True)" if base == "Frozen" else "@dataclass(kw_only=True)")
         out.append(f"class {name}" + {"Serializable": "(Serializable)", "Frozen": "(FrozenSerializable)", "plain": ""}[base] + ":")
+        if not c["fields"]:
+            out.append("    pass")
         for f in c["fields"]:
             out.append(f"    {f['name']}: {render_annotation(f['ty'], builtin_generics)}")
         out.append("")
@@ -411,7 +413,7 @@ def collect_enums(T: dict, b: Built):
 # generators ------------------------------------------------------------------------------------
 
 INTS = [0, 1, -1, 2, 7, -5, 12, 255, -300, 10**9 + 7, 2**63, -(2**64), 10**18, 10**40, -(10**40) + 3]
-FLOATS = ["0.0", "1.5", "-2.25", "1e-07", "1e+16", "3.141592653589793", "inf", "-inf", "1e+300", "5e-324", "100.0",
+FLOATS = ["0.0", "-0.0", "1.5", "-2.25", "1e-07", "1e+16", "3.141592653589793", "inf", "-inf", "1e+300", "5e-324", "100.0",
           "0.1", "-0.5", "2.0", "123456.789"]
 STRS = ["", "a", "hello world", "12", "yes", "None", "null", "é", "日本語", "a\nb", " x ", "1.5", "true", "[1]", "ключ",
         "~", "0x10", "1e3", "#c", "- a", "a: b", "'q'", '"', "\\", "-7", "off", "N", "x" * 40, "tab\there", "{}", "a,b"]
@@ -435,6 +437,7 @@ LITERALS = [
     [{"t": "int", "v": "1"}, {"t": "int", "v": "2"}, {"t": "int", "v": "3"}],
     [{"t": "str", "v": "fast"}, {"t": "str", "v": "slow"}, {"t": "str", "v": "12"}],
     [{"t": "int", "v": "0"}, {"t": "str", "v": "auto"}],
+    [{"t": "bool", "v": True}, {"t": "str", "v": "x"}],
 ]
 FIELD_NAMES = ["a", "b", "c", "d", "e", "name", "x1", "val", "items", "cfg"]
 
@@ -547,7 +550,8 @@ def gen_type(ctx: Ctx, depth: int):
 def gen_class(ctx: Ctx, depth: int, n_fields=None, base=None):
     rng = ctx.rng
     name = ctx.fresh_cls()
-    n = n_fields if n_fields is not None else rng.choice([1, 2, 2, 3, 3, 4])
+    # (a class without fields, p = 0.05 — not at the top of a case — e.g. as Optional[Empty]: its dict `{}` is falsy)
+    n = n_fields if n_fields is not None else (0 if (ctx.n_cls > 1 and rng.random() < 0.05) else rng.choice([1, 2, 2, 3, 3, 4]))
     names = rng.sample(FIELD_NAMES, n)
     fields = []
     for fname in names:
@@ -612,7 +616,8 @@ def gen_value(rng, T: dict):
         for _ in range(rng.choice([0, 1, 2, 2, 3])):
             kv = gen_value(rng, T["key"])
             items.setdefault(pykey(kv), [kv, gen_value(rng, T["val"])])
-        return {"t": "dict", "odict": False, "v": list(items.values())}
+        # a Dict field may hold a collections.OrderedDict (p = 0.1)
+        return {"t": "dict", "odict": bool(items) and rng.random() < 0.1, "v": list(items.values())}
     if k == "dc":
         return {"t": "inst", "cls": T["cls"], "v": [[f["name"], gen_value(rng, f["ty"])] for f in T["fields"]]}
     raise ValueError(k)
@@ -686,6 +691,8 @@ RULE = ("cases: (a) ser.route — a generated dataclass tree (Serializable / Fro
         "raw values against random types (correspondence only); (e) ser.encode / ser.todict unit cases. Non-trivial = a route or "
         "lenient case whose class has >= 2 fields or a container/nested field, or a unit case on a container; distinct by canonical JSON.")
 ASSUMPTIONS = [
+    "ints on the JSON / YAML text routes have at most 4300 decimal digits (CPython's sys.int_max_str_digits: dumps_json / "
+    "dumps_yaml raise ValueError beyond it; the dict / pickle routes have no limit) - the model's jsonTr / yamlTr accept every int",
     "json.dumps/json.loads, yaml.dump/yaml.safe_load and pickle are faithful on dict/list/str/int/float/bool/None values "
     "(yaml up to dict key order); exercised by every route case",
     "float parsing/printing (float(), repr) is Python's; the model carries floats as their repr",
@@ -758,6 +765,7 @@ def has_kind(T, pred):
 
 
 RAW_POOL = [
+    {"t": "enum", "cls": "Level", "v": "NONE"}, {"t": "enum", "cls": "Prio", "v": "P0"}, {"t": "enum", "cls": "Level", "v": "LOW"},
     {"t": "none"}, {"t": "bool", "v": True}, {"t": "bool", "v": False}, V_int(0), V_int(1), V_int(5), V_int(-3),
     {"t": "float", "v": "2.0"}, {"t": "float", "v": "2.5"}, {"t": "float", "v": "inf"}, {"t": "float", "v": "nan"},
     {"t": "str", "v": "12"}, {"t": "str", "v": " 7 "}, {"t": "str", "v": "1_0"}, {"t": "str", "v": "2.5"}, {"t": "str", "v": "abc"},
@@ -835,6 +843,24 @@ def gen(rng, tier):
         if not others:
             continue
         yield {"op": "ser.decode", "case": {"kind": "union-nonmember", "ty": U, "raw": rng.choice(prim_vals[rng.choice(others)])}}
+    # (c'') Unions with a non-primitive member (Enum / Path / List): outside the property's "Union of primitives", members are
+    #       tried in declaration order — lossy cases are the open finding C05-union-nonprim-order
+    COL = enum_type(ENUMS[0])
+    nonprim_unions = [
+        ([COL, T_("str")], [{"t": "str", "v": "RED"}, {"t": "str", "v": "abc"}, {"t": "enum", "cls": "Color", "v": "BLUE"}]),
+        ([T_("str"), COL], [{"t": "enum", "cls": "Color", "v": "RED"}, {"t": "str", "v": "RED"}]),
+        ([T_("str"), T_("path")], [{"t": "path", "v": "a/b"}, {"t": "str", "v": "a"}]),
+        ([T_("path"), T_("str")], [{"t": "str", "v": "a"}, {"t": "path", "v": "a/b"}]),
+        ([T_("path"), T_("list", item=T_("int"))], [{"t": "list", "v": [V_int(1), V_int(2)]}, {"t": "path", "v": "p"}]),
+        ([T_("int"), T_("list", item=T_("int")), T_("none")], [{"t": "list", "v": [V_int(3)]}, V_int(4), {"t": "none"}]),
+    ]
+    for _ in range(40 if quick else 600):
+        alts, vals = rng.choice(nonprim_unions)
+        U = T_("union", alts=alts)
+        T = T_("dc", cls="K1", base=rng.choice(["Serializable", "plain"]), reg=True,
+               fields=[{"name": "u", "ty": U, "to_dict": True, "enc": None, "dec": None, "default": None}])
+        T["reg"] = T["base"] != "plain"
+        yield {"op": "ser.route", "case": {"ty": T, "x": {"t": "inst", "cls": "K1", "v": [["u", rng.choice(vals)]]}}}
     # (d) malformed stream
     n_mal = 500 if quick else 12000
     for _ in range(n_mal):
@@ -847,7 +873,7 @@ def gen(rng, tier):
     n_unit = 200 if quick else 5000
     for _ in range(n_unit):
         ctx = Ctx(rng, allow_tuple_keys=True, allow_hooks=True, allow_hidden=True)
-        T = gen_type(ctx, rng.choice([1, 2, 3]))
+        T = gen_class(ctx, rng.choice([0, 1, 2])) if rng.random() < 0.5 else gen_type(ctx, rng.choice([1, 2, 3]))
         v = gen_value(rng, T)
         yield {"op": "ser.encode", "case": {"ty": T, "v": v}}
         if T["k"] == "dc":
@@ -1085,8 +1111,6 @@ def oracle(case, obs):
     fails = []
     if op == "ser.route":
         exp = strip_odict(norm_v(c["x"]))
-        if not obs.get("x_unchanged", True):
-            fails.append({"clause": "input-unchanged", "detail": "the instance was modified by serialization"})
         for name in ROUTES:
             o = obs["routes"][name]
             if o["o"] != "ok":
@@ -1131,6 +1155,54 @@ def nontrivial(case, obs):
     return type_depth(T) >= 1
 
 
+def value_tags(T, V, acc):
+    """Dimensions of the quantifier that the type kinds do not show: which values / shapes were reached."""
+    k, t = T["k"], V["t"]
+    if t == "none":
+        acc.add("val:none")
+    elif t == "int":
+        n = int(V["v"])
+        acc.add("val:int0" if n == 0 else ("val:bigint" if abs(n) >= 2**63 else ("val:neg" if n < 0 else "val:int")))
+    elif t == "str":
+        acc.add("val:str-empty" if V["v"] == "" else ("val:nonascii" if not V["v"].isascii() else "val:str"))
+    elif t == "float":
+        acc.add("val:float-" + ("special" if V["v"] in ("inf", "-inf", "-0.0") else "plain"))
+    elif t in ("list", "tuple", "set", "dict") and not V["v"]:
+        acc.add(f"val:empty-{t}")
+    if t == "dict" and V.get("odict"):
+        acc.add("val:ordereddict")
+    if k == "opt":
+        if T["inner"]["k"] == "dc":
+            acc.add("shape:opt<dc>")
+        if t != "none":
+            value_tags(T["inner"], V, acc)
+    elif k == "union":
+        acc.add(f"union:n{sum(a['k'] != 'none' for a in T['alts'])}" + ("+none" if any(a["k"] == "none" for a in T["alts"]) else ""))
+    elif k in ("list", "vtuple", "set") and t in ("list", "tuple", "set"):
+        if T["item"]["k"] == "dc":
+            acc.add(f"shape:{k}<dc>")
+        if k == "set":
+            acc.add(f"setitem:{T['item']['k']}")
+        for x in V["v"]:
+            value_tags(T["item"], x, acc)
+    elif k == "tuple" and t == "tuple":
+        for ti, x in zip(T["items"], V["v"]):
+            value_tags(ti, x, acc)
+    elif k == "dict" and t == "dict":
+        acc.add(f"key:{T['key']['k']}")
+        if T["val"]["k"] == "dc":
+            acc.add("shape:dict<dc>")
+        for kk, x in V["v"]:
+            value_tags(T["val"], x, acc)
+    elif k == "dc" and t == "inst":
+        if not T["fields"]:
+            acc.add("shape:empty-class")
+        tys = {f["name"]: f["ty"] for f in T["fields"]}
+        for name, x in V["v"]:
+            value_tags(tys[name], x, acc)
+    return acc
+
+
 def tags(case, obs):
     op, c = case["op"], case["case"]
     t = [f"op:{op}" + (":" + c["kind"] if "kind" in c else "")]
@@ -1143,6 +1215,9 @@ def tags(case, obs):
             t.append("src:" + ("postponed" if c["src"].get("postponed") else "eager") + ("+builtin-generics" if c["src"].get("builtin_generics") else ""))
         outs = {o["o"] if o["o"] == "ok" else "raise:" + str(o.get("exc")) for o in obs["routes"].values()}
         t += [f"out:{o}" for o in sorted(outs)]
+        t += sorted(value_tags(T, c["x"], set()))
+        if not obs.get("x_unchanged", True):
+            t.append("instance-modified")
     elif op == "ser.decode":
         o = obs["out"]
         t.append("out:" + (o["o"] if o["o"] == "ok" else "raise:" + str(o.get("exc"))))
@@ -1197,6 +1272,49 @@ def f_tuple_key_yaml(case, obs, fail):
             and _nonempty_tuple_key_dict(case["case"]["ty"], case["case"]["x"]))
 
 
+def has_odict(V):
+    """The value holds a collections.OrderedDict somewhere."""
+    t = V["t"]
+    if t == "dict":
+        return bool(V.get("odict")) or any(has_odict(k) or has_odict(x) for k, x in V["v"])
+    if t in ("list", "tuple", "set"):
+        return any(has_odict(x) for x in V["v"])
+    if t == "inst":
+        return any(has_odict(f[1]) for f in V["v"])
+    return False
+
+
+def f_union_nonprim(case, obs, fail):
+    """Every differing node is annotated with a Union that has a NON-primitive member (Enum / Path / container), the expected
+    value is a str / Path / Enum leaf of one member and what came back is a leaf of ANOTHER member that stands earlier in the
+    declaration (its decoder accepted the written text first)."""
+    ds = fail.get("diffs") or []
+    if fail.get("clause") != "roundtrip" or not ds or fail.get("n_diffs", len(ds)) != len(ds):
+        return False
+    kind_of = {"str": "str", "path": "path", "enum": "enum", "int": "int", "float": "float", "bool": "bool"}
+    for d in ds:
+        T = d.get("ty") or {}
+        if T.get("k") != "union":
+            return False
+        alts = [a["k"] for a in T["alts"] if a["k"] != "none"]
+        if all(a in ("int", "float", "str", "bool") for a in alts):
+            return False
+        e, g = d["exp"], d["got"]
+        if not isinstance(g, dict) or e.get("t") not in kind_of or g.get("t") not in kind_of or e["t"] == g["t"]:
+            return False
+        if e["t"] not in alts or g["t"] not in alts or alts.index(g["t"]) > alts.index(e["t"]):
+            return False
+    return True
+
+
+def f_odict_yaml(case, obs, fail):
+    """The instance holds an OrderedDict in a Dict field: to_dict keeps the OrderedDict (encode_dict's `constructor = type(obj)`),
+    yaml.dump writes `!<OrderedDict>` + `!!python/tuple` items, safe_load refuses — only the three YAML routes fail, with
+    ConstructorError."""
+    return (case["op"] == "ser.route" and fail.get("clause") == "roundtrip" and fail.get("route") in ("yaml", "f.yaml", "f.yml")
+            and fail.get("exc") == "ConstructorError" and has_odict(case["case"]["x"]))
+
+
 def _nonempty_tuple_key_dict(T, V):
     k, t = T["k"], V["t"]
     if k == "dict" and t == "dict":
@@ -1217,19 +1335,27 @@ def _nonempty_tuple_key_dict(T, V):
 
 FINDINGS = {
     "C05-tuple-key-dict-yaml": f_tuple_key_yaml,
+    "C05-ordereddict-yaml": f_odict_yaml,
+    "C05-union-nonprim-order": f_union_nonprim,
 }
 
 MANIFEST = {
-    "text": ("Proof, full on the property's grammar (Optional[T] and Unions of primitives; named gap outside it: dicts with tuple "
-             "keys on the YAML routes). Lean theorems c05_roundtrip / c05_instance: for every type of the grammar (any nesting depth), "
-             "every well-typed value and every transport (direct/pickle, JSON with key stringification, YAML), "
-             "from_dict(transport(to_dict(x))) = x with every node of the declared Python type; c05_union_member_unchanged: a value that "
-             "is an instance of a member of a Union of primitives comes back unchanged whatever the member order. For Unions with "
-             "non-primitive members the same holds under the decidable side condition UnionSafe (c05_roundtrip_partial; the "
-             "unrestricted statement is refuted by a Union[str, Path] witness). The model of "
+    "text": ("Proof, full on the property's grammar (Optional[T] and Unions of primitives; Dict fields hold plain dicts). Lean theorems "
+             "c05_roundtrip / c05_instance: for every type of the grammar (any nesting depth), every well-typed value and every transport "
+             "(direct/pickle, JSON with key stringification, YAML), from_dict(transport(to_dict(x))) = x with every node of the declared "
+             "Python type; c05_files: load(save(x)) for .json/.yaml/.yml/.pkl through the model's suffix table; "
+             "c05_union_member_unchanged: a value that is an instance (exact type) of a member of a Union of primitives comes back "
+             "unchanged whatever the member order. Named gaps, each an open finding with a Lean witness: dicts with tuple keys and an "
+             "OrderedDict held by a Dict field break the three YAML routes; Unions with a non-primitive member are decoded in declaration "
+             "order (there the round trip holds under the decidable side condition UnionSafe: c05_roundtrip_partial). Lenient raw "
+             "encodings: proved per leaf (int text with surrounding whitespace or '+', boolean words, float reprs the model recognises: "
+             "plain decimals of <= 15 digits, inf, nan; tuple given as list) and lifted pointwise through List / Tuple[...,...] / "
+             "Optional (c05_lenient_list, c05_lenient_optional); through dict keys, sets and nested instances, and for exponent / "
+             "16-17-digit float reprs, SAMPLED only (the lenient stream of the generator). The model of "
              "encode / get_decoding_fn / from_dict is tied to the code by four correspondence ops (encode, to_dict, "
              "get_decoding_fn(t)(raw) incl. lenient and malformed raw values, and all seven real routes end-to-end) and the "
-             "property's own statement is evaluated on every real observation."),
+             "property's own statement is evaluated on every real observation. Frozen vs Serializable vs plain bases and "
+             "postponed-annotation source modules: sampled."),
     "note": ("Trusted: Lean kernel + propext/Classical.choice/Quot.sound; json, pickle, PyYAML, pathlib, float()/repr (assumed "
              "faithful on primitives, exercised by every case); the harness. Modelled not verified: encoding.py:61-141, "
              "decoding.py:79-518, serializable.py:704-908 (decode_into_subclasses / _type_ keys are outside the model: C14)."),
